@@ -26,7 +26,7 @@ var skipInit = map[string]bool{
 	"runtime": true, "os": true, "syscall": true, "internal/poll": true, "internal/cpu": true,
 	"internal/godebug": true, "time": true, "reflect": true, "sync": true, "internal/sync": true,
 	"crypto/internal/fips140/check": true, "internal/syscall/unix": true,
-	"os/exec": true, "net": true, "internal/testlog": true, "testing": true, "log": true,
+	"os/exec": true, "net": true, "internal/testlog": true, "testing": true,
 	"math/rand": true, "math/rand/v2": true, "crypto/rand": true, "os/signal": true,
 	"internal/runtime/maps": true, "fmt": true, "os/user": true, "runtime/debug": true,
 	"internal/reflectlite": true, "internal/oserror": true, "context": true, "net/netip": true, "unique": true, "net/http": true, "mime": true, "crypto/tls": true, "crypto/x509": true, "net/http/internal": true, "golang.org/x/net/http/httpguts": true, "compress/gzip": true,
